@@ -95,7 +95,7 @@ class Spec(PropSpec):
     partial_note = ("c07_crash_image_partial is proved for every block size, coin and draw sequence, for the alphabet without "
                     "create_dir_all / remove_dir_all and without successful renames of regular files (the oracle asserts the "
                     "renames of data-synced files outside the narrow classes RenameFile / RenameCrossDir; the rest is covered by the model, the "
-                    "correspondence and the oracle only); it holds outside the known classes RenameFile, RenameSelf, RenameDir, StaleHandle, Recreate, "
+                    "correspondence and the oracle only); it holds outside the known classes RenameFile, RenameSelf, RenameDir, StaleHandle, Recreate (for the theorem: any creation of a file at a name a file left since the last crash; the known finding Recreate is narrower and the oracle asserts the re-creations outside it), "
                     "KindSwap, RootOp")
 
     def gen_cases(self, ctx):
@@ -127,10 +127,18 @@ class Spec(PropSpec):
         cases += [F.gen_clean_rename(rng, crash=0.1, setup_sync=rng.choice([1, 2, 2]), syncs=0.2,
                                      block_size=rng.choice([None, None, 2]), sync_prob=rng.choice([0.0, 0.0, 0.3]))
                   for _ in range(110 * k)]
+        # an entry removed and created again at the same path (directory; file outside the narrow class
+        # Recreate), the removal flushed before or together with the creation, then a crash
+        rc = F.recreate_scenarios(rng)
+        cases += rc if not q else rng.sample(rc, 120)
         for _ in range(30 * k):
             c = F.gen_clean_rename(rng, crash=0.12, setup_sync=rng.choice([1, 2]), syncs=0.2)
             c["cfg"]["via"] = "sim"
             c["flavour"] += "+Sim::crash"
+            if rng.random() < 0.5:
+                # the host's program has returned before the crash (a finished host, not a parked one)
+                c["cfg"]["host_returns"] = True
+                c["flavour"] += "+host-returned"
             cases.append(c)
         # the same scripts inside a running turmoil::Sim, crash = Sim::crash + Sim::bounce
         for _ in range(70 * k):
@@ -138,6 +146,9 @@ class Spec(PropSpec):
                            sync_prob=rng.choice([0.0, 0.0, 0.4]), block_size=rng.choice([None, None, 2]))
             c["cfg"]["via"] = "sim"
             c["flavour"] += "+Sim::crash"
+            if rng.random() < 0.5:
+                c["cfg"]["host_returns"] = True
+                c["flavour"] += "+host-returned"
             cases.append(c)
         return cases
 
